@@ -995,7 +995,7 @@ pub fn run(prop: &'static str, tier: &str) -> i32 {
 /// interpreter does with an instruction must not depend on how it was compiled.  Runs as a
 /// separate process (`gbmc <prop> --worker shipping <tier> <out.json>`).
 pub fn stage_shipping(prop: &'static str, rep: &mut Report) -> u64 {
-  if std::env::var("GBMC_CHILD_OUT").is_ok() {
+  if std::env::var("GBMC_CHILD_OUT").is_ok() || std::env::var("GBMC_FAST").is_ok() {
     return 0; // this is itself a rerun in another build profile; the parent runs this stage
   }
   let bin = match std::env::var("GBMC_PLAIN_BIN") {
